@@ -57,12 +57,23 @@ const (
 	vSa
 	vTrue
 	vNil
+	vBig0 // 2^53: the largest range in which float64 holds every integer ends here
+	vBig1 // 2^53+1: not representable as float64 (rounds to 2^53)
+	vBigF // 2^53 as a float
 	nVals
 )
 
-var valOf = [nVals]any{nil, int64(1), int64(2), int64(3), 1.5, "1", "a", true, nil}
-var valName = [nVals]string{"absent", "int:1", "int:2", "int:3", "float:1.5", `str:"1"`, `str:"a"`, "bool:true", "nil"}
-var valKind = [nVals]string{"absent", "int", "int", "int", "float", "string", "string", "bool", "nil"}
+var valOf = [nVals]any{nil, int64(1), int64(2), int64(3), 1.5, "1", "a", true, nil, int64(1) << 53, int64(1)<<53 + 1, float64(int64(1) << 53)}
+var valName = [nVals]string{"absent", "int:1", "int:2", "int:3", "float:1.5", `str:"1"`, `str:"a"`, "bool:true", "nil", "int:2^53", "int:2^53+1", "float:2^53"}
+var valKind = [nVals]string{"absent", "int", "int", "int", "float", "string", "string", "bool", "nil", "int", "int", "float"}
+
+// phase 1b (large integers): 64-bit ids and nanosecond timestamps are integers beyond 2^53; "the comparison uses
+// integers" / "convert the Value to the same type" means neighbours that collapse to one float64 stay distinct
+var bigDomain = []valID{vAbsent, vI1, vBig0, vBig1, vBigF}
+var bigCondValues = []cval{
+	{`9007199254740993`, 9007199254740993}, {`9007199254740992`, 9007199254740992},
+	{`[9007199254740993, 2]`, []any{9007199254740993, 2}}, {`"9007199254740993"`, "9007199254740993"},
+}
 
 var fDomain = []valID{vAbsent, vI1, vI2, vF15, vS1, vSa, vTrue, vNil}
 var gDomain = []valID{vAbsent, vSa, vI2}
@@ -341,12 +352,19 @@ func refValue(c cond, sv any) tri {
 				}
 			}
 		case "int", "float":
-			conv := func(v any) (float64, convStatus) {
+			// the two sides are converted to the declared type and compared exactly in that type (integers as
+			// integers: neighbours beyond 2^53 that collapse to one float64 stay distinct)
+			type num struct {
+				i int64
+				f float64
+			}
+			conv := func(v any) (num, convStatus) {
 				if c.dt == "int" {
 					n, st := docInt(v)
-					return float64(n), st
+					return num{i: n}, st
 				}
-				return docFloat(v)
+				f, st := docFloat(v)
+				return num{f: f}, st
 			}
 			in = F
 			s, st := conv(sv)
@@ -1445,6 +1463,31 @@ func main() {
 	}
 	base += int64(len(conds)*len(scopes)) * int64(len(phase1Traces))
 	lap("phase1")
+
+	// ---- phase 1b: large integers: comparison and membership operators x datatype x values around 2^53
+	var bigConds []cond
+	for _, op := range operators {
+		if fam := family(op); fam != "compare" && fam != "membership" {
+			continue
+		}
+		for _, dt := range datatypes {
+			for _, v := range bigCondValues {
+				for _, fm := range []int{fmF, fmRootF, fmGF} {
+					bigConds = append(bigConds, cond{fm, op, dt, v})
+				}
+			}
+		}
+	}
+	bigTraces := append(genTraces(1, bigDomain, []valID{vAbsent}, rootsEnds, idKept), genTraces(2, bigDomain, []valID{vAbsent, vSa}, rootsEnds, idKept)...)
+	runPhase(r, "phase1b", len(bigConds)*len(scopes), 4, func(i int) (ruleset, []*traceD) {
+		c := bigConds[i/len(scopes)]
+		return ruleset{{name: "R1X", scope: scopes[i%len(scopes)], conds: []cond{c}, out: outcome{"drop", 0}}}, bigTraces
+	}, len(bigTraces), base)
+	for _, c := range bigConds {
+		r.Distinct("distinct_nontrivial", "p1b|"+c.op+"|"+c.dt+"|"+c.val.yaml)
+	}
+	base += int64(len(bigConds)*len(scopes)) * int64(len(bigTraces))
+	lap("phase1b")
 
 	// ---- phase 2: one rule, two conditions (all ordered pairs of the representative set) x scope
 	rc := reprConds()
